@@ -765,6 +765,7 @@ const Preamble = `(declare-datatypes ((Str 0)) (((mkstr (sarr (Array Int Int)) (
 (declare-datatypes ((ISeq 0)) (((mkseq (seqarr (Array Int Int)) (seqlen Int)))))
 (declare-datatypes ((Event 0)) (((mkev (ekind Int) (eobj Int) (estr Str) (eint Int) (eobj2 Int) (eseq Int)))))
 (declare-fun sid (Str) Int)
+(declare-fun catid (Int Int) Int)
 (define-fun streq ((a Str) (b Str)) Bool (= (sid a) (sid b)))
 (define-fun streqdef ((a Str) (b Str)) Bool (and (= (slen a) (slen b)) (forall ((i!q Int)) (=> (and (<= 0 i!q) (< i!q (slen a))) (= (select (sarr a) (+ (soff a) i!q)) (select (sarr b) (+ (soff b) i!q)))))))
 `
